@@ -235,6 +235,28 @@ def main():
             compare(res, ("broadcast", lead, tn, (Ne, nPg, d)), f"broadcast lead={lead} tensor_ndim={tn}", got, want, True,
                     dict(shape=list(shape), Ne=Ne, nPg=nPg, tensor_ndim=tn, values=v.tolist()))
 
+    # ---------------- constant tensors given as Python lists / tuples (not ndarrays), also when sizes coincide ----------------
+    for (Ne_, nPg_, d_) in ((5, 3, 3), (3, 4, 3), (3, 3, 3), (1, 1, 2), (4, 2, 2)):
+        sfld = ints(rng, (Ne_, nPg_))
+        vfld = ints(rng, (Ne_, nPg_, d_))
+        cvec = ints(rng, (d_,), nonzero=True)
+        cmat = ints(rng, (d_, d_), nonzero=True)
+        S_, V_ = FeArray.asfearray(sfld), FeArray.asfearray(vfld)
+        forms = [("scalar_field * list(d)", lambda: S_ * cvec.tolist(), lambda x, c: x * c, [("fe", sfld), ("const", cvec)]),
+                 ("tuple(d) - scalar_field", lambda: tuple(cvec.tolist()) - S_, lambda c, x: c - x, [("const", cvec), ("fe", sfld)]),
+                 ("np.maximum(scalar_field, list(d))", lambda: np.maximum(S_, cvec.tolist()), lambda x, c: np.maximum(x, c), [("fe", sfld), ("const", cvec)]),
+                 ("vector_field * list(d x d)", lambda: V_ * cmat.tolist(), lambda x, c: x * c, [("fe", vfld), ("const", cmat)]),
+                 ("vector_field + list(d)", lambda: V_ + cvec.tolist(), lambda x, c: x + c, [("fe", vfld), ("const", cvec)])]
+        for name, fn, f, fops in forms:
+            ident = dict(op=name, Ne=Ne_, nPg=nPg_, d=d_, operands=describe(fops))
+            try:
+                got = fn()
+            except Exception as ex:  # noqa: BLE001
+                res.case(("list-constant", name, (Ne_, nPg_, d_)))
+                res.fail(f"constant tensor given as a list: {name} raises", f"raised {ex!r} where the per-point tensor operation is defined", ident)
+                continue
+            compare(res, ("list-constant", name, (Ne_, nPg_, d_)), f"constant tensor given as a list / tuple: {name}", got, loop(Ne_, nPg_, f, *fops), True, ident)
+
     # ---------------- a per-element field (Ne, 1, ...) with a per-point field (1, nPg, ...) through the non-elementwise protocol paths ----------------
     for (Ne_, nPg_, d_) in ((5, 4, 3), (3, 3, 3), (2, 3, 2), (4, 2, 2)):
         ae = ints(rng, (Ne_, 1, d_, d_))
